@@ -161,10 +161,31 @@ fn random_arc(ctx: &mut Ctx, index: u64, r: &mut Rng, bufs: &mut CurveBuffers) {
             f32r(v)
         }
     };
-    let a = (0.0, 0.0);
+    let mut a = (0.0, 0.0);
     let mut b = (g(r), g(r));
     let mut c = (g(r), g(r));
     match r.below(8) {
+        3 => {
+            // exactly collinear points whose determinant products are not representable in single precision
+            // (the two products then round alike, a fused multiply-add does not): the fallback is mandated
+            if r.chance(1, 2) {
+                // b arbitrary, c = 2b or 4b or -b (exact in binary floating point)
+                let k = [2.0, 4.0, -1.0, 0.5][r.below(4)];
+                c = (b.0 * k, b.1 * k);
+            } else {
+                // integer lattice line starting near a corner of the coordinate range and running inwards:
+                // differences of several thousand px, so their products exceed 2^24
+                let corner = |r: &mut Rng| {
+                    let sign = if r.chance(1, 2) { 1.0 } else { -1.0 };
+                    sign * r.range(3000, 4097) as f64
+                };
+                a = (corner(r), corner(r));
+                let d = (-a.0.signum() * r.range(600, 1151) as f64, -a.1.signum() * r.range(600, 1151) as f64);
+                let (i, j) = (r.range(1, 4) as f64, r.range(4, 7) as f64);
+                b = (a.0 + i * d.0, a.1 + i * d.1);
+                c = (a.0 + j * d.0, a.1 + j * d.1);
+            }
+        }
         0 => {
             // near-collinear
             let t = r.f() * 1.5 - 0.25;
